@@ -62,6 +62,9 @@ impl<V> StoreModel<V> {
     { unimplemented!() }
     #[verifier::external_body]
     pub fn item_size(&self) -> (r: usize) ensures r == self.item_size { unimplemented!() }
+    /// ShardedMap::hasher(): a clone of the configured BuildHasher (only handed on to HashMap::with_hasher)
+    #[verifier::external_body]
+    pub fn hasher<S>(&self) -> (r: S) { unimplemented!() }
 }
 
 /// Arc<LFUPolicy<S>>: the clauses are those of unit u4_policy ([add.*], [pol.upd.*], [pol.rm.*])
@@ -91,6 +94,10 @@ impl PolicyModel {
     #[verifier::external_body]
     pub fn remove(&mut self, k: &u64) ensures final(self).charges@ == old(self).charges@.remove(*k), final(self).last_add == old(self).last_add { unimplemented!() }                 // [pol.rm.map]
     #[verifier::external_body]
+    pub fn max_cost(&self) -> (r: i64) ensures r == self.mc@ { unimplemented!() }                                                                                                 // [pol.max_cost]
+    #[verifier::external_body]
+    pub fn update_max_cost(&mut self, mc: i64) ensures final(self).mc@ == mc, final(self).charges == old(self).charges, final(self).used == old(self).used, final(self).last_add == old(self).last_add { unimplemented!() }   // [pol.umc.set] [pol.umc.frame]
+    #[verifier::external_body]
     pub fn contains(&self, k: &u64) -> (r: bool) ensures r == self.charged(*k) { unimplemented!() }                                                                                  // [pol.contains]
     #[verifier::external_body]
     pub fn cost(&self, k: &u64) -> (r: i64) ensures r == (if self.charged(*k) { self.charges@[*k] } else { -1i64 }) { unimplemented!() }                                             // [pol.cost]
@@ -119,6 +126,8 @@ impl WaitGroup {
 #[verifier::external_body]
 #[derive(Copy, Clone)]
 pub struct Duration { _p: u8 }
+/// receiving ends of the processor's channels (only stored by CacheProcessor::new)
+pub struct RxModel { pub _p: u8 }
 impl Duration {
     pub uninterp spec fn zero(&self) -> bool;
     #[verifier::external_body]
@@ -148,6 +157,9 @@ impl<V> StoreModel<V> {
         ensures r.is_some() <==> self.resident(*key) && compatible(conflict, self.view@[*key].conflict) && live(self.view@[*key].expiration),
             r.is_some() ==> r.unwrap().item@ == self.view@[*key],
     { unimplemented!() }
+    // [store.len]: the number of resident entries
+    #[verifier::external_body]
+    pub fn len(&self) -> (r: usize) ensures r == self.view@.dom().len() { unimplemented!() }
     // [store.expiration]
     #[verifier::external_body]
     pub fn expiration(&self, key: &u64) -> (r: Option<Time>)
